@@ -33,8 +33,111 @@ MUTATING_METHODS = {"append", "extend", "insert", "remove", "pop", "clear", "sor
 
 
 # --------------------------------------------------------------------------------------- ordered paths
+PRE = "pre@"
+
+
+def pre_name(lineno: int, chain: str) -> str:
+    """Name standing for the value `chain` (a `self.X` attribute) held *before* the write at that line."""
+    return f"{PRE}{lineno}({chain})"
+
+
+class _Rename(ast.NodeTransformer):
+    def __init__(self, chain: str, name: str) -> None:
+        self.chain, self.name = chain, name
+
+    def visit_Attribute(self, node: ast.Attribute) -> ast.AST:  # noqa: N802
+        if isinstance(node.ctx, ast.Load) and u(node) == self.chain:
+            new = ast.copy_location(ast.Name(id=self.name, ctx=ast.Load()), node)
+            new._inlined = True  # type: ignore[attr-defined]
+            return new
+        return self.generic_visit(node)
+
+
+UP = "<caller>"
+
+
 class OrderedSymExec(SymExec):
-    """SymExec that records where on the path each atomic condition was decided."""
+    """SymExec that
+      * records where on the path each atomic condition was decided (effects of kind 'cond');
+      * keeps pre-state and post-state apart: when `self.X` is written, every local bound before the write
+        that holds an expression reading `self.X` now reads `pre@<line>(self.X)`;
+      * executes private, non-anchored helpers of the same class/module interprocedurally when the call is
+        the whole value of a statement (any number of returns, effects allowed): the helper's statements run
+        on the caller's path with the parameters bound to the substituted arguments."""
+
+    def __init__(self, max_paths: int = 4096, prog: Program | None = None, fn: FuncInfo | None = None,
+                 depth: int = 3) -> None:
+        super().__init__(max_paths)
+        self.prog, self.fn, self.depth = prog, fn, depth
+        self.stack: list[str] = []
+
+    def _bind(self, p: Path, target: ast.AST, value: ast.AST, lineno: int) -> None:
+        n = len(p.effects)
+        super()._bind(p, target, value, lineno)
+        if isinstance(target, ast.Attribute) and len(p.effects) == n + 1 and p.effects[-1].kind == "write":
+            chain = u(p.effects[-1].node.elts[0])  # type: ignore[attr-defined]
+            if chain.startswith("self.") and chain.count(".") == 1:
+                ren = _Rename(chain, pre_name(lineno, chain))
+                p.env = {k: ren.visit(copy.deepcopy(v)) if chain in u(v) else v for k, v in p.env.items()}
+
+    def _whole_call(self, s: ast.stmt) -> ast.Call | None:
+        if isinstance(s, (ast.Expr, ast.Return)) and isinstance(s.value, ast.Call):
+            return s.value
+        if isinstance(s, ast.Assign) and isinstance(s.value, ast.Call):
+            return s.value
+        if isinstance(s, ast.AnnAssign) and isinstance(s.value, ast.Call):
+            return s.value
+        return None
+
+    def _enter(self, p: Path, s: ast.stmt, call: ast.Call) -> list[tuple[Path, str]] | None:
+        if self.prog is None or self.fn is None or len(self.stack) >= self.depth:
+            return None
+        h = _helper_target(self.prog, self.fn, call, {})
+        if h is None or h.name in ANCHOR_NAMES or isinstance(h, ast.AsyncFunctionDef) or h.name in self.stack \
+                or h.name == self.fn.name:
+            return None
+        if h.decorator_list and not all(isinstance(d, ast.Name) and d.id in ("staticmethod", "override")
+                                        for d in h.decorator_list):
+            return None
+        binds = _bind(h, call)
+        if binds is None:
+            return None
+        ln = getattr(s, "lineno", 0)
+        cur: list[tuple[Path, dict[str, ast.AST]]] = [(p, {})]
+        for name, arg in binds.items():
+            nxt = []
+            for q, got in cur:
+                for q2, e in self.ev(q, arg, ln):
+                    nxt.append((q2, {**got, name: e}))
+            cur = nxt
+        out: list[tuple[Path, str]] = []
+        self.stack.append(h.name)
+        try:
+            for q, args in cur:
+                q.env = {**{UP * (len(self.stack)) + k: v for k, v in q.env.items()}, **args}
+                for r, st in self.block(q, list(_strip_doc(list(h.body)))):
+                    if st in ("break", "continue"):
+                        raise SymUnsupported(f"{h.name}: {st} outside a loop")
+                    if st == "raise":
+                        out.append((r, st))
+                        continue
+                    val = r.ret if st == "return" and r.ret is not None else ast.Constant(None)
+                    mark = UP * len(self.stack)
+                    r.env = {k[len(mark):]: v for k, v in r.env.items() if k.startswith(mark)}
+                    r.ret, r.exit = None, ""
+                    if isinstance(s, ast.Return):
+                        r.ret, r.exit, r.lineno = val, "return", ln
+                        out.append((r, "return"))
+                        continue
+                    if isinstance(s, ast.Assign):
+                        for t in s.targets:
+                            self._bind(r, t, val, ln)
+                    elif isinstance(s, ast.AnnAssign):
+                        self._bind(r, s.target, val, ln)
+                    out.append((r, "next"))
+        finally:
+            self.stack.pop()
+        return out
 
     def _log(self, p: Path, orig: ast.AST, sub: ast.AST, lineno: int) -> None:
         # SymExec._test logs the atom it has just appended to p.conds with a Constant(None) origin
@@ -64,6 +167,11 @@ class OrderedSymExec(SymExec):
                         e.env = {k: v for k, v in env.items() if k not in bound}  # type: ignore[attr-defined]
                         break
             return out
+        call = self._whole_call(s)
+        if call is not None:
+            got = self._enter(p, s, call)
+            if got is not None:
+                return got
         return super().stmt(p, s)
 
 
@@ -154,8 +262,17 @@ def spliced(prog: Program, fn: FuncInfo) -> FuncNode:
 
 
 def ordered_paths(prog: Program, fn: FuncInfo, inline: bool = True, max_paths: int = 4096) -> list[Path]:
+    """Ordered symbolic paths of `fn` (cached per program: rules only read them)."""
+    cache = prog.__dict__.setdefault("_c09_paths", {})
+    key = (fn.qual, inline)
+    if key not in cache:
+        cache[key] = _ordered_paths(prog, fn, inline, max_paths)
+    return cache[key]
+
+
+def _ordered_paths(prog: Program, fn: FuncInfo, inline: bool, max_paths: int) -> list[Path]:
     node = spliced(prog, fn) if inline else fn.node
-    se = OrderedSymExec(max_paths)
+    se = OrderedSymExec(max_paths, prog, fn if inline else None)
     out = []
     for p, st in se.block(Path(), list(_strip_doc(node.body))):
         if st == "next":
@@ -241,7 +358,7 @@ def entails_le(p: Path, small: Any, big: Any, before: int | None = None) -> bool
     for s in _texts(small):
         for b in _texts(big):
             if s == b or decided(p, ("<", b, s), before) is False or decided(p, ("<=", s, b), before) is True \
-                    or decided(p, ("<", s, b), before) is True \
+                    or decided(p, ("<", s, b), before) is True or decided(p, ("<=", b, s), before) is False \
                     or decided(p, ("==", frozenset({s, b})), before) is True:
                 return True
     return False
@@ -381,3 +498,58 @@ def subscripts_of(e: ast.AST | None, base: str) -> list[ast.Subscript]:
         return []
     return [n for n in ast.walk(e) if isinstance(n, ast.Subscript) and isinstance(n.ctx, ast.Load)
             and u(n.value) == base]
+
+
+def is_extreme_of(p: Path, v: ast.AST, a: str, b: str, biggest: bool, before: int | None = None) -> bool:
+    """`v` is max(a, b) (biggest) / min(a, b) on this path: the call itself (any argument order), or one of
+    the two operands with the path conditions entailing that it is the larger / smaller one."""
+    if isinstance(v, ast.Call) and u(v.func) == ("max" if biggest else "min") and not v.keywords \
+            and len(v.args) == 2 and {u(x) for x in v.args} == {a, b}:
+        return True
+    for mine, other in ((a, b), (b, a)):
+        if u(v) == mine and (entails_le(p, other, mine, before) if biggest else entails_le(p, mine, other, before)):
+            return True
+    return False
+
+
+def zero(p: Path, n: str, before: int | None = None) -> bool | None:
+    """Has the path established n == 0 (True) / n != 0 (False) for a non-negative count n?"""
+    tests = [(("==", frozenset({n, "0"})), True), (("<=", n, "0"), True), (("<", n, "1"), True),
+             (("truthy", n), False), (("<", "0", n), False), (("<=", "1", n), False)]
+    for key, pol in tests:
+        o = decided(p, key, before)
+        if o is not None:
+            return o == pol
+    return None
+
+
+def truth(p: Path, text: str, before: int | None = None) -> bool | None:
+    return decided(p, ("truthy", text), before)
+
+
+def none_test(p: Path, text: str, before: int | None = None) -> bool | None:
+    """Outcome of `text is None` on this path."""
+    return decided(p, ("is", frozenset({text, "None"})), before)
+
+
+def writes(p: Path) -> list[tuple[int, ast.AST, ast.AST, int]]:
+    """(position, target, value, line) of every attribute / item store on the path."""
+    return [(i, e.node.elts[0], e.node.elts[1], e.lineno)  # type: ignore[attr-defined]
+            for i, e in enumerate(p.effects) if e.kind == "write"]
+
+
+def rename_comp_vars(e: ast.AST) -> ast.AST:
+    """Comprehension variables renamed canonically (v0, v1, ...) on a copy, so that two comprehensions that
+    differ only in the variable name coincide."""
+    e = copy.deepcopy(e)
+    k = 0
+    for n in ast.walk(e):
+        if isinstance(n, (ast.GeneratorExp, ast.ListComp, ast.SetComp)):
+            for g in n.generators:
+                if isinstance(g.target, ast.Name):
+                    old, new = g.target.id, f"v{k}"
+                    k += 1
+                    for m in ast.walk(n):
+                        if isinstance(m, ast.Name) and m.id == old:
+                            m.id = new
+    return e
